@@ -13,7 +13,7 @@ import zlib
 
 import zstandard
 from urllib3 import HTTPConnectionPool
-from urllib3.exceptions import DecodeError, HTTPError, IncompleteRead, ProtocolError
+from urllib3.exceptions import DecodeError, HTTPError, IncompleteRead, ProtocolError, ReadTimeoutError
 
 from mc.common import Acc, HarnessError
 from mc.httpparse import response
@@ -248,21 +248,23 @@ def faults(spec, thorough):
 
 # ------------------------------------------------------------------ execution
 class FaultServer(Server):
-    def __init__(self, first):
+    def __init__(self, first, keep_open=False):
         self.first = first
+        self.keep_open = keep_open  # the peer does NOT close after the faulty response: nothing but the client's
+        #                             own hygiene keeps the connection away from the next request
 
     def on_request(self, sock, req, idx):
         if idx == 0:
-            return [self.first, EOF]
+            return [self.first] if self.keep_open else [self.first, EOF]
         return [response(200, SECOND)]
 
 
 ACCEPT_EXC = (ProtocolError, IncompleteRead, DecodeError)
 
 
-def run_program(prog, head, wire, chunked):
+def run_program(prog, head, wire, chunked, keep_open=False):
     """-> dict(outcome='completed'|'raised'|'skip', exc, pieces, second=...)"""
-    net = Net(FaultServer(head + wire))
+    net = Net(FaultServer(head + wire, keep_open))
     res = {"outcome": None, "exc": None, "pieces": b"", "second": None}
     pieces = bytearray()
     with net:
@@ -355,17 +357,21 @@ def run_program(prog, head, wire, chunked):
     return res, net
 
 
-def judge(spec, fault, prog, verdict, acceptable, data, res, net):
+def judge(spec, fault, prog, verdict, acceptable, data, res, net, keep_open=False):
     """-> list of (clause, sig, observed, expected)"""
     out = []
     size, coding, fr = spec
     sig = {"coding": coding, "framing": fr, "fault": fault[0], "program": prog[0]}
+    if keep_open:
+        sig["peer"] = "keeps-open"
     if fault[0] == "sizeline":
         sig["rep"] = fault[2].decode("latin-1")
     oc = res["outcome"]
     if oc == "raised":
         e = res["exc"]
-        if not isinstance(e, ACCEPT_EXC):
+        if keep_open and isinstance(e, ReadTimeoutError):
+            pass  # the corrupted framing promised more than was sent and the peer stays silent: a timeout is the truth
+        elif not isinstance(e, ACCEPT_EXC):
             out.append(("wrong-exception", dict(sig, exc=type(e).__name__), "%s: %s" % (type(e).__name__, str(e)[:150]),
                         "ProtocolError / IncompleteRead / DecodeError"))
     elif oc == "completed":
@@ -413,6 +419,15 @@ def _task(t):
             acc.outcomes[(verdict, res["outcome"], type(res["exc"]).__name__ if res["exc"] else None)] += 1
             for clause, sig, obs, exp in judge(spec, fault, prog, verdict, acceptable, data, res, net):
                 acc.violation(clause, sig, {"spec": list(spec), "fault": list(fault), "prog": list(prog)}, observed=obs, expected=exp)
+            if fault[0] != "cut" and verdict == "bad":
+                # the same corrupt response from a peer that keeps the connection open afterwards
+                res, net = run_program(prog, head, wire, chunked, keep_open=True)
+                acc.n += 1
+                acc.counters["keep_open_runs"] += 1
+                acc.outcomes[(verdict + "/keeps-open", res["outcome"], type(res["exc"]).__name__ if res["exc"] else None)] += 1
+                for clause, sig, obs, exp in judge(spec, fault, prog, verdict, acceptable, data, res, net, keep_open=True):
+                    acc.violation(clause, sig, {"spec": list(spec), "fault": list(fault), "prog": list(prog), "keep_open": True},
+                                  observed=obs, expected=exp)
         if acc.counters["faulty_inputs"] == 5:
             acc.sample({"spec": spec, "fault": fault, "wire": head + wire, "verdict": verdict})
     return acc
@@ -453,8 +468,9 @@ def replay(case):
     if found is None:
         raise HarnessError("fault not found in enumeration: %r" % (fault,))
     flt, head, wire, verdict, acceptable, data = found
-    res, net = run_program(prog, head, wire, spec[2] != "cl")
-    for clause, sig, obs, exp in judge(spec, flt, prog, verdict, acceptable, data, res, net):
+    ko = bool(case.get("keep_open"))
+    res, net = run_program(prog, head, wire, spec[2] != "cl", keep_open=ko)
+    for clause, sig, obs, exp in judge(spec, flt, prog, verdict, acceptable, data, res, net, keep_open=ko):
         acc.violation(clause, sig, case, observed=obs, expected=exp)
     return {"verdict": verdict, "outcome": res["outcome"], "exc": repr(res["exc"])[:200] if res["exc"] else None,
             "delivered": res["pieces"], "second": res["second"], "wire": head + wire, "violations": acc.viol}
